@@ -19,7 +19,7 @@ from metric_learn.exceptions import NonPSDError
 PID = 'C20'
 LEVEL = 'exploration'
 RULE = ('all symmetric integer matrices: size 1,2,3 entries in {-2..2}, size 4 entries in {-1,0,1} (thorough: also all 9 765 625 size-4 '
-        'matrices with entries in {-2..2}) x scales {1, 2^20, 2^-20}; '
+        'matrices with entries in {-2..2}) x scales {1, 2^20, 2^-20}, PSD ones also in mixed units (D A D, D = diag(2^9, 2^-9, 1..)); '
         'singular PSD matrices minus delta*I for delta in {tol/100, 100 tol} x tol in {default, 0, 1e-12, 1e-3}; asymmetric '
         'perturbations; priors {identity, covariance, random, array: valid / asymmetric / wrong shape / indefinite / singular} '
         'x strict_pd x return_inverse x datasets (incl. repeated points and spectra spanning 1e-12..1e12); inits '
@@ -154,6 +154,12 @@ def run_case(spec):
             for sc in (1.0, 2.0 ** 20, 2.0 ** -20):
                 evals += 1
                 out = check_conversion(Af * sc, psd, None, 'components_from_metric', ['diagonal' if diag else 'dense', 'n=%d' % n], viol)
+            if psd and not diag and n >= 2:
+                # the same form in badly matched units: D A D with D = diag(2^9, 2^-9, 1, ..) (exact; congruence keeps PSD-ness)
+                Dv = np.ones(n)
+                Dv[0], Dv[1] = 2.0 ** 9, 2.0 ** -9
+                evals += 1
+                check_conversion(Af * Dv[:, None] * Dv[None, :], True, None, 'components_from_metric', ['dense', 'n=%d' % n, 'mixed_units'], viol)
             sigs.add((n, rank, psd, diag, out))
             if sample is None and psd and not diag:
                 sample = {'matrix': A, 'exactly_psd': psd, 'scales': [1, '2^20', '2^-20'], 'outcome': out}
